@@ -299,7 +299,12 @@ func (dir *Local) Open(origFile sts.File) (sts.Readable, error) {
 			return nil, err
 		}
 		if meta.Link != "" {
-			path = meta.Link
+			if filepath.IsAbs(meta.Link) {
+				path = meta.Link
+			} else {
+				// Relative to the directory the link is in
+				path = filepath.Join(filepath.Dir(origFile.GetPath()), meta.Link)
+			}
 		}
 	}
 	return os.Open(path)
